@@ -115,6 +115,36 @@ def _vf_install_format_stub():
     B._str = _str
     C._PATCH_REGISTRATIONS[int] = _int
     B._int = _int
+
+    # CrossHair 0.0.110 models list.index(value, start, stop) by slicing and returns the position
+    # *within the slice* (off by `start`) - code searching a list from an offset then loops for ever or
+    # goes wrong under tracing although it is right in the interpreter.  Replaced by the documented
+    # semantics (same comparisons, absolute positions).
+    import sys as _sys
+
+    def _list_index(self, value, start=0, stop=_sys.maxsize):
+        with NoTracing():
+            if not isinstance(self, list):
+                raise TypeError
+            n = list.__len__(self)
+        if start < 0:
+            start = start + n
+            if start < 0:
+                start = 0
+        if stop < 0:
+            stop = stop + n
+            if stop < 0:
+                stop = 0
+        i = start
+        while i < n and i < stop:
+            item = self[i]
+            if item is value or item == value:
+                return i
+            i += 1
+        raise ValueError("%r is not in list" % (value,))
+
+    C._PATCH_REGISTRATIONS[list.index] = _list_index
+    B._list_index = _list_index
     B._vf_format_installed = True
 
 
